@@ -13,6 +13,19 @@ COMMON_NOTE = ("Trusted: Lean 4.33.0 kernel; axioms per theorem as printed by #p
 
 # property id -> dict(level, text, technique, note, design_ref)
 CLAIMED = {
+    "C06": dict(
+        level="proof",
+        text="Lean theorems about the polymorphic inline cache and its use by get_by_name: ic_capacity, megamorphic_latch, "
+             "get_returns_stored, own_entry_valid (an own-property entry is right for every object of that shape: layout is a function "
+             "of the shape id), proto_entry_valid (a prototype entry is right while the prototype keeps its shape), "
+             "cached_eq_uncached_partial (with valid entries a cached access returns exactly the uncached result, hit or miss) and the "
+             "refutation proto_entry_stale (the unrestricted statement is false on this tree). The cache state machine is tied to the code by "
+             "trace validation: every InlineCache get/set/clean-up the engine performs on generated histories (hook) is replayed through the "
+             "model; the property's own differential (caches on vs off, hook) runs on the same histories. PARTIAL: prototype entries are a "
+             "recorded known finding; shape transitions are not modelled.",
+        technique="Lean 4 proofs about an inline-cache model + trace validation of recorded cache events + caches-on/off differential",
+        note="Needs the boa_verif hooks (cache switch, event recording).",
+    ),
     "C14": dict(
         level="proof",
         text="Lean refinement theorems for IndexedProperties: refine_insert / refine_remove / refine_contains / refine_push_dense / "
@@ -86,7 +99,7 @@ CLAIMED = {
 
 ALL = ["C%02d" % i for i in range(1, 21)]
 NOT_YET = "not claimed yet: model, correspondence and first theorem for this property are not built (see DESIGN.md §7 build order)"
-HOOK_COMMITS = []
+HOOK_COMMITS = ["ee8c1f4", "5c06b44"]
 
 
 def manifest():
